@@ -149,7 +149,11 @@ class InjectSampler(Sampler):
         call = self._calls
         self._calls += 1
         if not (isinstance(self._opts, dict) and self._opts.get("retain")):
-            return inject_samples(self._opts, bool(self._sc.shared), self._index, call, nr, npert, nv, np.where(mask)[0])
+            out = inject_samples(self._opts, bool(self._sc.shared), self._index, call, nr, npert, nv, np.where(mask)[0])
+            if self._sc.shared and isinstance(self._opts, dict) and self._opts.get("contract_shape"):
+                # the documented shape for a shared sampler: first dimension of length one
+                out = out[:1].copy()
+            return out
         # a sampler that keeps what it handed out (a tabulated design): the arrays stay the sampler's own,
         # and a call-independent design hands out the very same array again
         for arr, pristine in self._kept:
